@@ -184,6 +184,10 @@ func runC04(p *Prog, r *Report) {
 			r.Check(strings.HasSuffix(rsd[0].Args[1], ".reqID"), R, "resend-current-id", rsd.Pos(p), "re-sends the current id", "re-sent with an id other than the context's current one")
 		}
 	}
+	if rp.OK() {
+		st := rp.Ev("store", "*.closed").Arg(0, "true")
+		r.Check(len(st) == 1 && len(st[0].Guard) == 0 && st.AllHeld(reqMu), R, "RemovePipe/marks-pipe-closed", st.Pos(p), "the departing pipe is marked closed unconditionally, under the lock", "RemovePipe does not mark the departing pipe closed on every path: sendCtx puts the dead pipe back on the ready list and the (re)transmission handed to it is lost: "+guardsOf(st))
+	}
 	q.ListRemoval(R, "RemovePipe/leaves-ready-list", rp, "recv.readyQ", reqMu, "RemovePipe does not take the departing pipe out of the ready list by shortening it: a dead pipe is scheduled and the (re)transmission handed to it is lost")
 	q.ListRemoval("C04.5/answered-never-resent", "cancelSend/leaves-send-queue", q.Fn("C04.5/answered-never-resent", "protocol/req", "context", "cancelSend"), "recv.s.sendQ", reqMu, "cancelSend does not take the context out of the send queue by shortening it")
 	q.StoreClasses(R, "readyQ-writers", "protocol/req.socket.readyQ", map[string]string{"protocol/req.(*socket).send": "set", "protocol/req.(*pipe).sendCtx": "set", "protocol/req.(*socket).AddPipe": "set", "protocol/req.(*socket).RemovePipe": "set"})
